@@ -14,6 +14,10 @@ def main(spec_path, out_path):
 		spec = json.load(fh)
 	import torch
 	torch.set_num_threads(int(os.environ.get("VERIF_TORCH_THREADS", "1")))
+	if os.environ.get("VERIF_DEFAULT_DTYPE"):
+		# environment variant: the caller's process-wide torch default dtype
+		torch.set_default_dtype(getattr(torch, os.environ[
+			"VERIF_DEFAULT_DTYPE"]))
 	import warnings
 	warnings.filterwarnings("ignore", category=DeprecationWarning)
 	from .rec import Recorder
@@ -27,6 +31,10 @@ def main(spec_path, out_path):
 	for unit in spec["units"]:
 		with open(cur_path, "w") as fh:
 			json.dump(unit, fh)
+		rec.cur_env = unit.get("env") or {}
+		if os.environ.get("VERIF_DEFAULT_DTYPE"):
+			rec.count("units_under_default_dtype_" + os.environ[
+				"VERIF_DEFAULT_DTYPE"])
 		try:
 			if unit.get("cls") == "__replay__":
 				case = unit["case"]
